@@ -297,12 +297,15 @@ func (env *Env) evalRenaming(x *Expr, first error) (*Term, error) {
 		used[nw] = true
 	}
 	for k := range env.vars {
-		if mentioned[k] || used[k] || strings.HasPrefix(k, "$") || strings.HasPrefix(k, "result") || k == "err" {
+		if mentioned[k] || used[k] || strings.HasPrefix(k, "$") || strings.HasPrefix(k, "result") || k == "err" || fieldNames[k] || !token.IsIdentifier(k) {
 			continue
 		}
 		cands = append(cands, k)
 	}
 	sort.Strings(cands)
+	if os.Getenv("JVC_DBGRENAME") != "" {
+		fmt.Fprintf(os.Stderr, "rename %s: candidates %v\n", m[1], cands)
+	}
 	type sol struct {
 		assign map[string]string
 		t      *Term
